@@ -536,13 +536,15 @@ class Body:
                 depth = 0
                 while k >= 0:
                     tt = T(k)
+                    if tt[0] == 'punct' and tt[1] == '}' and depth == 0 and T(k + 1)[1] not in ('=', '|', 'if'):
+                        break      # end of the previous arm's block
                     if tt[0] == 'punct' and tt[1] in CLOSE:
                         depth += 1
                     elif tt[0] == 'punct' and tt[1] in OPEN:
                         if depth == 0:
                             break
                         depth -= 1
-                    elif depth == 0 and tt[1] in (',', '}'):
+                    elif depth == 0 and tt[1] == ',':
                         break
                     k -= 1
                 binds = self._rewrite_pattern(code, k + 1, ci)
